@@ -279,6 +279,62 @@ func genGE(cfg *config, r *rng, i int, s *sink) string {
 		if r.chance(1, 30) {
 			lat2, lon2 = lat, lon
 		}
+		if r.chance(1, 6) {
+			// special configurations: bit-identical latitudes (same parallel, where the arc of the
+			// parallel is NOT the great circle), bit-identical longitudes, pairs either side of the
+			// 180th meridian, near-antipodal pairs
+			span := math.Pow(10, -3+r.float01()*3.9) // 0.001 .. ~8 degrees (the property covers pairs up to 1000 km apart)
+			if fast {
+				span = math.Pow(10, -4+r.float01()*2.9) // < ~0.08 degrees
+			}
+			switch r.intn(4) {
+			case 0:
+				lat2, lon2 = lat, lon+span
+				if lon2 > 180 {
+					lon2 -= 360
+				}
+				s.count("ge.dist.same_parallel")
+			case 1:
+				lon2 = lon
+				lat2 = lat + span
+				if lat2 > 89.5 {
+					lat2 = lat - span
+				}
+				if lat2 < -89.5 {
+					lat2 = -89.5
+				}
+				s.count("ge.dist.same_meridian")
+			case 2:
+				// (the fast method is specified away from the 180th meridian only)
+				if !fast {
+					lon = 180 - span*r.float01()
+					lon2 = -180 + span*r.float01()
+					if r.bool() {
+						lat2 = lat
+					}
+					s.count("ge.dist.antimeridian")
+				}
+			default:
+				// same parallel at high latitude: a wide longitude span is still a short distance
+				if !fast {
+					lat = pick(r, []float64{60, 75, -80, 85, 88.5})
+					lat2, lon2 = lat, lon+span*pick(r, []float64{1, 2, 5})
+					if lon2 > 180 {
+						lon2 -= 360
+					}
+					s.count("ge.dist.same_parallel_high")
+				}
+			}
+			if gcDistLL(lat, lon, lat2, lon2)*6378137 > 1.0e6 {
+				lat2, lon2 = lat, lon+0.5
+				if lon2 > 180 {
+					lon2 -= 360
+				}
+			}
+			if fast && (math.Abs(lat2) >= 80 || gcDistLL(lat, lon, lat2, lon2)*6378137 > 10000) {
+				lat2, lon2 = lat, lon+0.01
+			}
+		}
 		gc := gcDistLL(lat, lon, lat2, lon2) * radius
 		f := "0"
 		if fast {
